@@ -27,7 +27,7 @@ TABLE = [
      "W3: reached only for Composite/Variant (single funnel, C07.2), whose path is non-empty"),
     (r"TypePathType::from_type_def_path", "may-panic-call", r"__private::mk_ident", r".*IdentFragmentAdapter\(C1_0\).*",
      "W3: path segments are identifiers"),
-    (r"TypePathType::to_syn_type", "panic-macro", r"unimplemented", r"arm:TypeDefPrimitive::[UI]256",
+    (r"TypePathType::to_syn_type", "panic-macro", r"unimplemented", r"arm:TypeDefPrimitive::[UI]256(\|TypeDefPrimitive::[UI]256)?",
      "W5: no Rust type produces the U256/I256 primitives"),
     (r"validation::path_segments_to_syn_path", "unwrap", r"Result::expect", r"syn::parse_str\(C1_0\)",
      "keys of the substitute map are idents rendered with to_string(); each parses as a syn::PathSegment"),
